@@ -82,7 +82,7 @@ fn main() {
         "C14" => {
             let mut rep = Report::new("C14", tier, "model_checking", "sim");
             rep.rule = "stateless enumeration: tick x global (min,max) x per-link / global overrides (fixed, link max, global max; before the run or mid-run; by name or regex) x burst size / in-step offset, with the latency variate of every message answered by the explorer from {0, 1/4, 1/2, 1, 4} through the cfg-guarded hook (the clamp is exercised by 4); sender's sim_elapsed is carried in the payload, receiver logs its own at receipt".into();
-            run_dfs(&mut rep, "latency-window", 0, wall, move |ch| flow::c14_scenario(ch, thorough));
+            run_dfs(&mut rep, "latency-window", tier.pick(1, 2), wall, move |ch| flow::c14_scenario(ch, thorough));
             rep.finish();
         }
         "C09" => {
